@@ -127,6 +127,63 @@ func Main(args []string) int {
 			}
 		}
 	}
+	// (v) pooled records: the time value is a view into the record's pooled backing buffer (records over 1 KiB). A record
+	// with one zone is processed and released, then a record with another zone of the same length is parsed into the
+	// recycled buffer, on a fresh transform instance for every pair: what the transform remembers about zones must not
+	// depend on bytes it does not own. All 2 x 24 x 4 offsets +-HH:MM (MM in 00 15 30 45) after three first zones.
+	{
+		alloc := base.NewLogAllocator(schema, 1)
+		pad := strings.Repeat("p", 1200)
+		viaPool := func(tv string) *base.LogRecord {
+			rec, view := alloc.NewRecord([]byte(tv + " " + pad))
+			rec.Fields[0] = view[:len(tv)]
+			rec.Timestamp = fallback
+			rec.RawLength = 100
+			return rec
+		}
+		for _, first := range []string{"+03:00", "-11:30", "+00:00"} {
+			for _, sign := range []string{"+", "-"} {
+				for hh := 0; hh < 24; hh++ {
+					for _, mm := range []string{"00", "15", "30", "45"} {
+						if !o.Mine() {
+							continue
+						}
+						second := fmt.Sprintf("%s%02d:%s", sign, hh, mm)
+						old := tf
+						tf = cfg.NewTransform(schema, logger.Root(), cnt)
+						r1 := viaPool("2021-06-07T08:09:10" + first)
+						tf.Transform(r1)
+						alloc.Release(r1)
+						r2 := viaPool("2021-06-07T08:09:10" + second)
+						in := "2021-06-07T08:09:10" + second
+						ev := map[string]any{"ev": "TS", "in": fnutil.Bytes(in), "pooledAfter": first}
+						before := cnt.Count["timeError"]
+						tf.Transform(r2)
+						counted := cnt.Count["timeError"] != before
+						ev["res"] = map[bool]string{true: "err", false: "ok"}[counted]
+						u := r2.Timestamp.Unix()
+						ev["counted"], ev["kept"] = counted, r2.Timestamp.Equal(fallback)
+						ev["days"], ev["sod"], ev["ns"] = floorDiv(u, 86400), u-floorDiv(u, 86400)*86400, r2.Timestamp.Nanosecond()
+						o.Emit(ev)
+						alloc.Release(r2)
+						tf = old
+					}
+				}
+			}
+		}
+	}
+	// (iv') the same unparsable value several times in a row, around a good one, and as the very first value of a fresh
+	// transform instance: every failure is counted, not only the first of its kind
+	for _, bad := range []string{"-", "", "x", "2021-06-07T08:09:1", "2021-06-07 08:09:10Z"} {
+		runGroup(bad, bad, bad, "2021-06-07T08:09:10Z", bad, "2021-06-07T08:09:11Z", "2021-06-07T08:09:11Z", bad)
+		if o.Mine() {
+			old := tf
+			tf = cfg.NewTransform(schema, logger.Root(), cnt)
+			exec(bad)
+			exec(bad)
+			tf = old
+		}
+	}
 	// (iv) the same malformed zone several times on one transform instance (the zone cache is state)
 	for _, z := range []string{"+03:0", "+03", "+", " +03:00", " UTC", "+25:00", "-0:30", "+0300", "+03:00", "-03:30", "-0330"} {
 		a, b := "2021-06-07T08:09:10"+z, "2021-06-07T08:09:10.5"+z
